@@ -176,10 +176,10 @@ def attach_stereo(new, items, mp):
         for f, args in pending:
             try:
                 f(*args, clean_cache=False)
-            except NotChiral:
-                fail.append((f, args))
             except IsChiral:
                 pass
+            except KeyError:     # NotChiral, or the library's tables cannot express the label (valence-invalid centres)
+                fail.append((f, args))
         if len(fail) == len(pending):
             new.flush_cache()
             return len(fail)
